@@ -321,7 +321,8 @@ template<class GraphImpl>
 void DAGraphImpl<GraphImpl>::fillListOfLeaves_(Graph::NodeId startingNode, std::vector<Graph::NodeId>& foundLeaves) const
 {
   const std::vector<Graph::NodeId> sons = getSons(startingNode);
-  if (sons.size() > 1)
+  // an inner node may have a single son: a leaf is a node without son
+  if (sons.size() > 0)
   {
     for (std::vector<Graph::NodeId>::const_iterator currNeighbor = sons.begin(); currNeighbor != sons.end(); currNeighbor++)
     {
